@@ -384,6 +384,29 @@ def let_by_id(body):
     return out
 
 
+def walk_through_locals(body, e, stop=()):
+    """walk(e), continued into the initialisers of the `let`-bound locals it mentions (transitively): the nodes that can contribute to the
+    value of e when its sub-expressions were first given names.  Locals whose id is in `stop` are not followed."""
+    lets = {}
+    for n in walk(body):
+        if n.get("k") == "LetStmt" and "init" in n:
+            for b in pat_bindings(n["pat"]):
+                lets[b["id"]] = n
+    seen = set()
+    todo = [e]
+    while todo:
+        cur = todo.pop()
+        for n in walk(cur):
+            yield n
+            if n.get("k") == "Path" and n.get("res", {}).get("r") == "local":
+                lid = n["res"]["id"]
+                if lid in lets and lid not in seen and lid not in stop:
+                    seen.add(lid)
+                    todo.append(lets[lid]["init"])
+                    if "else" in lets[lid]:
+                        todo.append(lets[lid]["else"])
+
+
 def assigns_to(body, local_id):
     out = []
     for n in walk(body):
